@@ -177,4 +177,15 @@ example : (run exShared σs).log.reverse.filterMap (fun r => if r.kind = .msg th
 example : (step exShared (init exShared) 0).isSome ∧
     (step ⟨[[.withOf 5]]⟩ (init ⟨[[.withOf 5]]⟩) 0).isNone := by decide
 
+/-- `preserve_context`: the wrapper is made inside action 1 (`spawnTask` = the action current there is what
+unit 1 continues), the parent logs msg 2 before the thread calls it; the thread's messages go to the
+continued action 10, a child of action 1, and after it the thread has no current action -/
+def exRemote : Prog :=
+  ⟨[[.enter 1, .spawnTask 1, .log 2, .join 1, .exit], [.remote 10, .log 11, .exit, .log 12]]⟩
+
+example : Joined exRemote := by unfold Joined; decide
+example : (run exRemote [0, 0, 0, 1, 1, 1, 1, 0, 0]).log.reverse.map (fun r => (r.unit, r.occ, r.kind, r.parent)) =
+    [(0, 1, .start, none), (0, 2, .msg, some 1), (1, 10, .start, some 1), (1, 11, .msg, some 10), (1, 10, .end_, some 10),
+     (1, 12, .msg, none), (0, 1, .end_, some 1)] := by decide
+
 end Ctx.C05
